@@ -103,8 +103,16 @@ impl Chunk {
     pub fn read_data<R: Read + Seek>(&self, reader: &mut R) -> Result<Vec<u8>> {
         self.seek_to_data(reader)?;
 
-        let mut data = vec![0; self.header.size as usize];
-        reader.read_exact(&mut data)?;
+        // The size comes from the file: let the buffer grow with the data that is
+        // really there instead of allocating the declared size up front
+        let mut data = Vec::new();
+        reader
+            .by_ref()
+            .take(u64::from(self.header.size))
+            .read_to_end(&mut data)?;
+        if data.len() != self.header.size as usize {
+            return Err(WmoError::UnexpectedEof);
+        }
 
         Ok(data)
     }
